@@ -527,8 +527,18 @@ en_cb(nng_pipe p, nng_pipe_ev ev, void *arg)
 	(void) arg;
 	en_events++;
 }
-static int en_rv;
-static int en_side;
+static int       en_rv;
+static int       en_side;
+static int       en_start, en_start_rv;
+static pthread_t en_thr;
+static nng_aio  *en_aio;
+static void *
+t_enstart(void *a)
+{
+	(void) a;
+	en_start_rv = nng_dialer_start(DL, 0);
+	return NULL;
+}
 static void *
 t_enclose(void *a)
 {
@@ -539,9 +549,11 @@ t_enclose(void *a)
 static void
 run_epnego(void *arg)
 {
-	int tran = (int) (intptr_t) arg & 3; // 0 socket://, 1 ipc, 2 tcp
+	int tran = (int) (intptr_t) arg & 3; // 0 socket://, 1 ipc, 2 tcp, 3 ws (dialer side only)
 	en_side  = ((int) (intptr_t) arg >> 2) & 1; // 0 listener, 1 dialer
-	if (tran == 2)
+	en_start = 0;
+	en_aio   = NULL;
+	if (tran >= 2)
 		vs_tcp_grace_us = 1500;
 	vh_init(1);
 	en_events = 0;
@@ -597,10 +609,23 @@ run_epnego(void *arg)
 			if (bind(lfd, (struct sockaddr *) &sa, sizeof(sa)) != 0 || listen(lfd, 4) != 0 ||
 			    getsockname(lfd, (struct sockaddr *) &sa, &sl) != 0)
 				vs_fail("harness:peer", "raw tcp listener");
-			snprintf(url, sizeof(url), "tcp://127.0.0.1:%d", ntohs(sa.sin_port));
+			snprintf(url, sizeof(url), tran == 3 ? "ws://127.0.0.1:%d/c10" : "tcp://127.0.0.1:%d",
+			    ntohs(sa.sin_port));
 		}
 		fcntl(lfd, F_SETFL, fcntl(lfd, F_GETFL) | O_NONBLOCK);
-		VH_OK(nng_dial(S, url, &DL, NNG_FLAG_NONBLOCK));
+		// how the dial was started: in the background, by a thread blocked in
+		// nng_dialer_start, or through nng_dialer_start_aio - the last two must be
+		// released by the close
+		en_start = vs_choose(VK_ENV, 3);
+		VH_OK(nng_dialer_create(&DL, S, url));
+		if (en_start == 0)
+			VH_OK(nng_dialer_start(DL, NNG_FLAG_NONBLOCK));
+		else if (en_start == 1)
+			pthread_create(&en_thr, NULL, t_enstart, NULL);
+		else {
+			VH_OK(nng_aio_alloc(&en_aio, NULL, NULL));
+			nng_dialer_start_aio(DL, NNG_FLAG_NONBLOCK, en_aio);
+		}
 		for (int t = 0; t < 20 && fd < 0; t++) {
 			vs_settle();
 			fd = accept(lfd, NULL, NULL);
@@ -612,8 +637,14 @@ run_epnego(void *arg)
 	}
 	fcntl(fd, F_SETFL, fcntl(fd, F_GETFL) | O_NONBLOCK);
 	vs_settle();
-	int half = vs_choose(VK_ENV, 3); // nothing sent / 4 bytes sent before / the rest arrives during the close
+	int half = tran == 3 ? 0 : vs_choose(VK_ENV, 3); // nothing sent / 4 bytes sent before / the rest arrives during the close
 	static const uint8_t hs[8] = { 0, 'S', 'P', 0, 0, 0x10, 0, 0 };
+	if (tran == 3) {
+		// the websocket upgrade request has arrived and stays unanswered
+		char req[1024];
+		vs_sleep(1);
+		(void) vp_read_avail(fd, req, sizeof(req));
+	}
 	if (half)
 		(void) write(fd, hs, 4);
 	vs_settle();
@@ -628,6 +659,17 @@ run_epnego(void *arg)
 	if (en_rv != 0)
 		vs_fail("C10:close-result", "%s close during negotiation -> %d",
 		    en_side ? "dialer" : "listener", en_rv);
+	if (en_side && en_start == 1) {
+		pthread_join(en_thr, NULL); // (never released = deadlock verdict of the engine)
+	}
+	if (en_side && en_start == 2) {
+		vs_sleep(20);
+		vs_settle();
+		if (nng_aio_busy(en_aio))
+			vs_fail("C10:pending-after-close",
+			    "nng_dialer_start_aio still pending 20 ms after nng_dialer_close returned");
+		nng_aio_free(en_aio);
+	}
 	dead(en_side ? "nng_dialer_close" : "nng_listener_close",
 	    en_side ? nng_dialer_close(DL) : nng_listener_close(LS));
 	int before = en_events;
@@ -807,11 +849,11 @@ main(int argc, char **argv)
 		}
 	for (int v = 0; v < 8; v++) {
 		int tr = v & 3, side = v >> 2;
-		if (tr == 3 || (side && tr == 0))
+		if ((tr == 3 && !side) || (side && tr == 0))
 			continue;
 		if (vx_time_left() < 15)
 			break;
-		static const char *EN[] = { "socketfd", "ipc", "tcp" };
+		static const char *EN[] = { "socketfd", "ipc", "tcp", "ws" };
 		char name[64];
 		snprintf(name, sizeof(name), "epnego-%s-%s", side ? "dialer" : "listener", EN[tr]);
 		vx_cfg c;
